@@ -633,6 +633,30 @@ func (e *Env) call(n *ECall) (Val, types.Type) {
 			}
 		}
 		return And(Le(zeroLike(nn), nn), Or(ds...)), nil
+	case "mine", "notmine":
+		// mine(p, n): [p,p+n) was allocated by the current invocation (owned);
+		// notmine(p, n): valid memory that this invocation did not allocate.
+		// Allocator axiom: memory allocated by an invocation is disjoint from
+		// memory that exists independently of it.
+		p, nn := argT(0), argT(1)
+		nu := Term{nn.S, BV(64, false)}
+		if e.assuming {
+			var ds []Term
+			for _, rg := range e.st.regions {
+				if rg.Fresh != (name == "mine") {
+					ds = append(ds, Implies(rg.Cond, disjointTerm(p, nn, rg.Base, rg.Size)))
+				}
+			}
+			e.st.regions = append(e.st.regions, Region{Base: p, Size: nu, Fresh: name == "mine", Cond: e.guardTerm()})
+			return And(append(ds, Le(zeroLike(nn), nn), validTerm(p, nn))...), nil
+		}
+		var ds []Term
+		for _, rg := range e.st.regions {
+			if rg.Fresh == (name == "mine") {
+				ds = append(ds, And(rg.Cond, Le(rg.Base, p), Le(Add(p, nu), Add(rg.Base, rg.Size))))
+			}
+		}
+		return And(Le(zeroLike(nn), nn), validTerm(p, nn), Or(ds...)), nil
 	case "disjoint":
 		return disjointTerm(argT(0), argT(1), argT(2), argT(3)), nil
 	case "min":
